@@ -43,7 +43,7 @@ def plan(tier, seed):
     if tier == 'quick':
         return [{'layouts': 2, 'depth3': 600, 'name': 'fs%d' % k} for k in range(8)] + \
                [{'reuse': True, 'layouts': 2, 'sequences': 150, 'name': 'reuse%d' % k} for k in range(2)]
-    return [{'layouts': 8, 'depth3': 100000, 'name': 'fs%d' % k} for k in range(16)] + \
+    return [{'layouts': 3, 'depth3': 15000, 'name': 'fs%d' % k} for k in range(16)] + \
            [{'reuse': True, 'layouts': 6, 'sequences': 3000, 'name': 'reuse%d' % k} for k in range(6)]
 
 
